@@ -356,7 +356,8 @@ let handle kind c =
               | Some w ->
                 let w = string_of_bytes w in
                 let k = List.length (List.filter (fun (w', _) -> w' = w) !acks) in
-                if k = 0 then once "not_delivered" (Printf.sprintf "week %s (%s) uploadable at the quiescent point, never acknowledged" w n) prop08
+                (* a week whose upload marker pre-existed is (correctly) dropped without a request *)
+                if k = 0 && not (List.mem (w ^ ".json") init_up_names) then once "not_delivered" (Printf.sprintf "week %s (%s) uploadable at the quiescent point, never acknowledged" w n) prop08
               | None -> ()) ql
     end
   | k -> diff "unknown-case-kind" ~model:k ~impl:"-"
